@@ -14,6 +14,7 @@ mod c07;
 mod docgen;
 mod c08;
 mod c09;
+mod c10;
 mod proc;
 mod c11;
 mod c16;
@@ -34,6 +35,7 @@ fn property(id: &str) -> Option<Property> {
         "C07" => c07::property(),
         "C08" => c08::property(),
         "C09" => c09::property(),
+        "C10" => c10::property(),
         "C11" => c11::property(),
         "C16" => c16::property(),
         "C17" => c17::property(),
